@@ -8,7 +8,7 @@ import (
 
 func init() {
 	register(&Property{ID: "C06", Run: runC06,
-		Explain: "Recipient rules decided on the three routers for every router state and message: (R06.1) the protobuf placed in outgoing RPCs is the accepted msg.Message pointer itself, and (with R03.6, re-evaluated here) no code writes fields of an accepted pb.Message; (R06.2) every send/yield is — through the recipient sets it ranges over — behind the false edges of `peer == msg.ReceivedFrom` and `peer == author`; (R06.3) every recipient is a key of p.topics[topic], a mesh/fanout member, or dominated by a successful lookup in the topic map; (R06.4) the router is handed only non-local messages (single and batch path); (R06.5) mesh/fanout recipients are skipped exactly when they declared the message unwanted; (R06.6) inclusion as implication checks: a direct topic peer, a floodsub-only topic peer at/above the publish threshold, a flood-publish topic peer that is direct or at/above the threshold, and a mesh/fanout member that did not declare the message unwanted can only miss the recipient set on a path that refutes that condition, and a collected recipient is only skipped by the source/author/partial-message exclusions; (R06.7) fanout is used only when the topic is not joined, its lastpub stamp is refreshed on every use, it is re-drawn only when empty, expires only after FanoutTTL without publishing and loses members only when they left the topic or fell below the publish threshold. NOT decided: that an outbound stream exists, random selection of randomsub beyond RandomSubD, the exact size of the fanout set.",
+		Explain: "Recipient rules decided on the three routers for every router state and message: (R06.1) the protobuf placed in outgoing RPCs is the accepted msg.Message pointer itself, and (with R03.6, re-evaluated here) no code writes fields of an accepted pb.Message; (R06.2) every send/yield is — through the recipient sets it ranges over — behind the false edges of `peer == msg.ReceivedFrom` and `peer == author`; (R06.3) every recipient is a key of p.topics[topic], a mesh/fanout member, or dominated by a successful lookup in the topic map; (R06.4) the router is handed only non-local messages (single and batch path); (R06.5) mesh/fanout recipients are skipped exactly when they declared the message unwanted; (R06.6) inclusion as implication checks: a direct topic peer, a floodsub-only topic peer at/above the publish threshold, a flood-publish topic peer that is direct or at/above the threshold, and a mesh/fanout member that did not declare the message unwanted can only miss the recipient set on a path that refutes that condition, and a collected recipient is only skipped by the source/author/partial-message exclusions; (R06.7) fanout is used only when the topic is not joined, its lastpub stamp is refreshed on every use, it is re-drawn only when empty, expires only after FanoutTTL without publishing and loses members only when they left the topic or fell below the publish threshold. (R06.3 after the audit round) mesh/fanout members get no exemption: a member that never subscribed or unsubscribed without PRUNE is not a topic peer. NOT decided: that an outbound stream exists, random selection of randomsub beyond RandomSubD, the exact size of the fanout set.",
 		Assume:  []string{"p.topics[topic] holds exactly the peers known to be in the topic (C05)", "gs.mesh/gs.fanout members are topic peers (C07)"},
 		Mutants: []Mutant{
 			{Name: "flood-forwards-copy", File: "floodsub.go", Old: "\tout := rpcWithMessages(msg.Message)\n\tfor pid := range fs.p.topics[topic] {", New: "\tcp := *msg.Message\n\tout := rpcWithMessages(&cp)\n\tfor pid := range fs.p.topics[topic] {", Expect: "R06.1"},
@@ -240,26 +240,9 @@ func runC06(c *RuleCtx) {
 					if src.Has(func(x *V) bool { return x.IsField("PubSub.topics") }) && (src.Kind == "index" || src.Kind == "lookupval") {
 						return true, "ranges over p.topics[topic]"
 					}
-					if innerMapOf("mesh")(src) || src.IsCall(fnFanoutPeers) {
-						return true, "mesh/fanout member"
-					}
-					if src.Kind == "var" && src.Obj != nil {
-						all, n := true, 0
-						for _, d := range p.R(f).Defs(src.Obj) {
-							if d.kind != "assign" || d.rhs == nil {
-								continue
-							}
-							n++
-							dv := p.R(f).Val(d.rhs)
-							if !(innerMapOf("mesh")(dv) || dv.IsCall(fnFanoutPeers)) {
-								all = false
-							}
-						}
-						if all && n > 0 {
-							return true, "mesh/fanout member"
-						}
-					}
 				}
+				// mesh and fanout members get no exemption: a member that never subscribed (GRAFT without
+				// SUBSCRIBE) or has unsubscribed without PRUNE stays in the set until it is pruned
 				inTopic := AtomBool("peer in p.topics[topic]", func(v *V) bool {
 					return v.Kind == "lookupok" && v.Args[0].Has(func(x *V) bool { return x.IsField("PubSub.topics") }) && v.Args[1].Equal(kv)
 				})
@@ -390,7 +373,8 @@ func runC06(c *RuleCtx) {
 					return true
 				}
 				nIncl++
-				ok, why := p.LoopBodyMust(lit, r, g.AtomEdges(unwanted, true), insertPred(r))
+				// a member that is not (or no longer) in the topic map is the other legitimate omission (R06.3)
+				ok, why := p.LoopBodyMust(lit, r, edgeSet(g.AtomEdges(unwanted, true), g.AtomEdges(inTopic, false)), insertPred(r))
 				c.Check(ok, "R06.6", f.Name, "every mesh/fanout member that did not declare the message unwanted is a recipient", r, why, "a mesh/fanout member can be left out although it did not send IDONTWANT: "+why)
 				// R06.5 suppression: inserted only on the failed lookup
 				for _, mi := range p.mapInserts(lit) {
